@@ -24,11 +24,13 @@ def main():
                 continue
             env = dict(os.environ, VERIF_REPO=tmp)
             t = time.time()
-            r = subprocess.run([os.path.join(V, "check"), prop], capture_output=True, text=True, env=env)
-            nv = sum(1 for ln in r.stdout.splitlines() if ln.startswith("VIOLATION"))
-            ok = r.returncode == 1 and nv > 0
-            print("%-6s check %s: exit %d, %d VIOLATION lines, %.0fs  %s" % (sid, prop, r.returncode, nv, time.time() - t, "caught" if ok else "NOT CAUGHT"))
-            bad += 0 if ok else 1
+            # the check of the property the change was written against, unless meta.json names the check it belongs to
+            for chk in meta.get("caught_by", [prop]):
+                r = subprocess.run([os.path.join(V, "check"), chk], capture_output=True, text=True, env=env)
+                nv = sum(1 for ln in r.stdout.splitlines() if ln.startswith("VIOLATION"))
+                ok = r.returncode == 1 and nv > 0
+                print("%-6s check %s: exit %d, %d VIOLATION lines, %.0fs  %s" % (sid, chk, r.returncode, nv, time.time() - t, "caught" if ok else "NOT CAUGHT"), flush=True)
+                bad += 0 if ok else 1
         finally:
             shutil.rmtree(tmp, ignore_errors=True)
     print("not caught: %d of %d" % (bad, len(ids)))
